@@ -261,7 +261,11 @@ ObsAll(d, o) == IF ~o.some THEN {} ELSE UNION { ObsFails(d, o.cs[i].c, o.cs[i]) 
 EventFailsR(d, e) ==
   LET f1 == RespFails(d, e, e.r1, 1)
       f2 == RespFails(d, e, e.r2, 2)
-      obs == IF "Outcome" \in f1 \/ "Outcome" \in f2 THEN {}
+      \* a call the specification did not expect to fail but that both clients refused: whatever the reason, a refused call must
+      \* leave the state as it was (C08), so the observation is judged against the unchanged state
+      refused == OcOf(e.r1) \in {"err", "ccf"} /\ OcOf(e.r2) \in {"err", "ccf"}
+      obs == IF "Outcome" \in f1 \/ "Outcome" \in f2
+             THEN (IF refused THEN Tag("o1.", ObsAll(d, e.o1)) \cup Tag("o2.", ObsAll(d, e.o2)) ELSE {})
              ELSE Tag("o1.", ObsAll(After(d, e), e.o1)) \cup Tag("o2.", ObsAll(After(d, e), e.o2))
   IN [all  |-> Tag("r1.", f1) \cup Tag("r2.", f2) \cup (IF RespSame(e, e.r1, e.r2) THEN {} ELSE {"Sdk.Equal"}) \cup obs,
       \* the state after the event is still KNOWN although an answer was wrong: both clients took an allowed branch, the same one,
